@@ -22,6 +22,12 @@ def g_exit(repo):
                    '    ensures\n        validate_step_ok(exit_code_in, status, res),\n',
                    'the conditional assignment `exit_code = status` that folds the code of one rules file into the exit code of validate (%s)' % where,
                    props=['C06'], pre='let mut exit_code = exit_code_in;   // the accumulator of Validate::execute (`let mut exit_code = SUCCESS_STATUS_CODE;`)')
+    TFOLD = r'(?:if\s+by_result[^{;]*\{[^{}]*exit_code\s*=[^{}]*\}|exit_code\s*=\s*match\s+by_result[^{;]*\{[^{}]*\}\s*;)'
+    g.fragment('U-tfold', CMD + 'reporters/test/generic.rs', 'report', r"impl<'report> GenericReporter<'report>", TFOLD, 0,
+               ('exit_code_in: i32, by_result: &ByResult', 'i32'), 'exit_code',
+               '    ensures\n        test_step_ok(exit_code_in, by_result.has("FAIL"@), res),\n',
+               'the statement of GenericReporter::report (plain `test`) that updates the exit code from the FAIL entry of one test case',
+               props=['C06', 'C16'], pre='let mut exit_code = exit_code_in;   // the accumulator of GenericReporter::report')
     g.unit_meta['L-exit'] = dict(function='lemma_consts, lemma_test_exit_is_max, lemma_test_exit_assoc, lemma_fold_validate, lemma_step_fold', file='/verif/verus/spec_exit.rs',
                                  clauses=dict(requires=0, ensures=12, invariant=0, decreases=1), props=['C06'], spec=None, lemma=True)
     return g
@@ -386,6 +392,18 @@ def g_validate_data(repo):
     g.raw('spec_validate.rs')
     g.raw('prelude_validate_data.rs')
     g.fn('U-evaldata', V, 'evaluate_against_data_input', spec='evaluate_against_data_input.spec+evaluate_against_data_input_proof.spec', props=['C06', 'C08'])
+    # R16 fragment (C17): the statement of Validate::execute that folds one --input-parameters file into the payload
+    g.fragment('U-pfold', V, 'execute', r'Executable for Validate', r'primary_path_value\s*=\s*match\s+primary_path_value\s*\{', 0,
+               ('primary_in: Option<PathAwareValue>, path_value: PathAwareValue', 'Result<Option<PathAwareValue>>'), 'Ok(primary_path_value)',
+               '''    ensures
+        // the first parameter file is taken as it is, nothing is dropped
+        primary_in is None ==> res == Ok::<Option<PathAwareValue>, Error>(Some(path_value)),
+        // every later file is MERGED into what was collected so far (PathAwareValue::merge: U-merge), never replaces it;
+        // a failing merge (duplicate key) fails the run
+        primary_in is Some ==> (res is Ok ==> res->Ok_0 == Some(merged(primary_in->Some_0, path_value))),
+''',
+               'the statement that folds the document of one --input-parameters file into the payload collected so far',
+               props=['C17'], pre='let mut primary_path_value = primary_in;   // the accumulator of Validate::execute (`let mut primary_path_value: Option<PathAwareValue> = None;`)')
     return g
 
 
